@@ -281,6 +281,7 @@ fn run_op(w: &mut World, f: &[&str]) -> St {
                     let cap = match parse_u(f[5]) { Some(x) => x, None => return None }; let its = match p_items(f[6]) { Some(x) => x, None => return None };
                     AW(Arc::from_header_and_vec(HeaderWithLength::new(T::new(hi, hv), r), mk_vec(cap, &its)))
                 }
+                ("default", 3) => A(Arc::default()),
                 ("newUninit", 3) => AM(Arc::new_uninit()),
                 ("uniqueNewUninit", 3) => QM(UniqueArc::new_uninit()),
                 ("newUninitSlice", 4) => { let k = match parse_u(f[3]) { Some(x) => x, None => return None }; AMS(Arc::new_uninit_slice(k)) }
